@@ -219,20 +219,36 @@ theorem annot_narrow_ctab_orig_counterexample :
   · simp [backMap, packs, packRgb, sortedPairs, searchsortedLeft, List.zipIdx, List.mergeSort, List.MergeSort.Internal.splitInTwo]
   · exact annot_roundtrip _ _ _ _ _ ⟨by decide, by decide, by decide, by decide, by decide, by decide, by decide, by decide⟩ (by decide)
 
-/-- open finding `annot:empty-ctab-unlabeled-vertices`: with a zero-entry colour table every non-empty
-    label vector makes `write_annot` raise IndexError (`ctab[:, -1][labels]`) -/
-theorem annot_empty_ctab_unlabeled_witness (labels : List Int) (has5 : Bool) (names : List Bytes)
-    (h : labels ≠ []) : writeAnnot labels [] has5 names true = .error .index := by
-  cases labels with
-  | nil => exact absurd rfl h
-  | cons l ls =>
-    have : clutLabel [] l = .error .index := by
-      simp only [clutLabel, indexPy, List.length_nil]
-      split <;> simp_all
-    simp only [writeAnnot, writeAnnotWith, fillCtab, if_true, List.map_nil, clutLabels, this]
+/-- **`annot:empty-ctab-unlabeled-vertices` (repaired by cb244bc8).**  BEFORE the fix (`writeAnnotLookupOrig`:
+    `ctab[:, -1][labels]`) a zero-entry colour table made the writer raise IndexError for every non-empty label
+    vector; the repaired writer accepts any number of unlabeled vertices with the empty table, and they read back as
+    all -1 with an empty table and no names. -/
+theorem annot_empty_ctab_unlabeled_orig_counterexample (labels : List Int) (has5 : Bool) (names : List Bytes)
+    (h : labels ≠ []) (n : Nat) (hn : n < 2147483648) :
+    writeAnnotLookupOrig labels [] has5 names true = .error .index ∧
+    (writeAnnot (List.replicate n (-1)) [] has5 [] true).bind (readAnnot false)
+      = .ok ⟨List.replicate n (-1), [], []⟩ := by
+  constructor
+  · cases labels with
+    | nil => exact absurd rfl h
+    | cons l ls =>
+      have : clutLabel [] l = .error .index := by
+        simp only [clutLabel, indexPy, List.length_nil]
+        split <;> simp_all
+      simp only [writeAnnotLookupOrig, writeAnnotWith, fillCtab, if_true, List.map_nil, clutLabels, this]
+  · have ok : AnnotDom (List.replicate n (-1)) [] has5 [] true :=
+      ⟨rfl, by simp, fun hf => Bool.noConfusion hf, by simp [packs],
+        fun l hl => Or.inl (List.mem_replicate.mp hl).2, by simp, by simpa using hn, by simp⟩
+    have := annot_roundtrip_general _ _ _ _ _ ok
+    rw [this]
+    have hm : (List.replicate n (-1 : Int)).map (limitLabel (packs [])) = List.replicate n (-1) := by
+      rw [List.map_replicate]; rfl
+    rw [hm]; rfl
 
-example : writeAnnot [-1] [] false [] true = .error .index :=
-  annot_empty_ctab_unlabeled_witness [-1] false [] (by decide)
+example : writeAnnotLookupOrig [-1] [] false [] true = .error .index ∧
+    (writeAnnot [-1, -1] [] false [] true).bind (readAnnot false) = .ok ⟨[-1, -1], [], []⟩ :=
+  ⟨(annot_empty_ctab_unlabeled_orig_counterexample [-1] false [] (by decide) 0 (by decide)).1,
+   (annot_empty_ctab_unlabeled_orig_counterexample [-1] false [] (by decide) 2 (by decide)).2⟩
 
 /-- **`fill_ctab=True` ignores the last column.**  Two colour tables that agree in R, G, B, T produce the
     same file bytes under `fill_ctab=True`, whatever their 5th columns hold (stale, zero, garbage) and
@@ -512,12 +528,13 @@ example : ∃ f, writeMorph [2, 1] [1, 2] (-2147483648) = .ok f :=
 example : ¬ ∃ f, writeMorph [2, 1] [1, 2] 2147483648 = .ok f :=
   fun h => absurd ((morph_writer_limits_generated [2, 1] [1, 2] 2147483648).mp h) (by decide)
 
-/-- **open finding `annot:unsigned-labels-overflow` (pinned tree).**  With a label array of an unsigned dtype the
-    writer fails with OverflowError for EVERY valid annotation (table with its fifth column or `fill_ctab`, labels
-    inside the table): `np.max(labels, initial=-1)` cannot represent -1. -/
-theorem annot_unsigned_labels_witness (labels : List Int) (ctab : List Row) (has5 : Bool) (names : List Bytes)
+/-- **`annot:unsigned-labels-overflow` (repaired by f0d22687).**  BEFORE the fix (`writeAnnotUnsignedOrig`), with a
+    label array of an unsigned dtype the writer failed with OverflowError for EVERY valid annotation (table with its
+    fifth column or `fill_ctab`, labels inside the table): `np.max(labels, initial=-1)` cannot represent -1.  The
+    repaired writer has no dtype-dependent step (the example shows the same input round-tripping). -/
+theorem annot_unsigned_labels_orig_counterexample (labels : List Int) (ctab : List Row) (has5 : Bool) (names : List Bytes)
     (fill : Bool) (hf : fill = true ∨ has5 = true) (hl : ∀ l ∈ labels, 0 ≤ l ∧ l < ctab.length) :
-    writeAnnotUnsigned labels ctab has5 names fill = .error .overflow := by
+    writeAnnotUnsignedOrig labels ctab has5 names fill = .error .overflow := by
   have hfc : ∃ c', fillCtab fill has5 ctab = .ok c' ∧ c'.length = ctab.length := by
     unfold fillCtab
     rcases hf with rfl | rfl
@@ -544,15 +561,19 @@ theorem annot_unsigned_labels_witness (labels : List Int) (ctab : List Row) (has
       obtain ⟨a, ha⟩ := hidx
       exact ⟨(if l = -1 then 0 else a) :: cs, by simp only [clutLabels, clutLabel, ha, hcs]⟩
   obtain ⟨cs, hcs⟩ := hcl labels hl
-  simp only [writeAnnotUnsigned, writeAnnotWith, hc, hcs]
+  simp only [writeAnnotUnsignedOrig, writeAnnotWith, hc, hcs]
 
-example : writeAnnotUnsigned [0] [⟨1, 0, 0, 0, 0⟩] false [[97]] true = .error .overflow :=
-  annot_unsigned_labels_witness _ _ _ _ _ (Or.inl rfl) (by decide)
+example : writeAnnotUnsignedOrig [0] [⟨1, 0, 0, 0, 0⟩] false [[97]] true = .error .overflow ∧
+    (writeAnnot [0] [⟨1, 0, 0, 0, 0⟩] false [[97]] true).bind (readAnnot false) = .ok ⟨[0], [⟨1, 0, 0, 0, 1⟩], [[97]]⟩ :=
+  ⟨annot_unsigned_labels_orig_counterexample _ _ _ _ _ (Or.inl rfl) (by decide),
+   annot_roundtrip _ _ _ _ _ ⟨by decide, by decide, by decide, by decide, by decide, by decide, by decide, by decide⟩
+     (by decide)⟩
 
-/-- **Proposed repair of `write_annot` for `annot:empty-ctab-unlabeled-vertices` is conservative.**  Looking up only
-    the labelled vertices (`clutLabelsFixed`) gives the SAME annotation values whenever the present lookup succeeds
-    (so every file written today is written byte-identically), and succeeds with all-zero values for any number of
-    unlabeled vertices whatever the table — including the empty one, where the present code raises IndexError. -/
+/-- **The repair cb244bc8 of `write_annot` is conservative (bridge between the old and the new lookup).**  Looking up
+    only the labelled vertices (`clutLabelsFixed`, the working tree) gives the SAME annotation values whenever the old
+    lookup `clutLabels` succeeded (so every file the old writer wrote is written byte-identically), and succeeds with
+    all-zero values for any number of unlabeled vertices whatever the table — including the empty one, where the
+    old code raised IndexError. -/
 theorem annot_fix_proposal_conservative (avals : List Int) :
     (∀ ls cs, clutLabels avals ls = .ok cs → clutLabelsFixed avals ls = .ok cs) ∧
     (∀ n, clutLabelsFixed avals (List.replicate n (-1)) = .ok (List.replicate n 0)) :=
